@@ -26,7 +26,7 @@ class Q:
     """One solver query (plus its witness twin)."""
     def __init__(s, name, harness, entry, defines=(), cxx=(), exc=False, cuts=(), models=(), unwind=8, paths=False,
                  vra='sc', cdefs=(), tier='quick', timeout=None, witness=True, expect='hold', kf=None, solver='kissat',
-                 bounds='', what='', validate=60, cbmc=(), unwindset=(), mem_gb=16, depth=None):
+                 bounds='', what='', validate=60, cbmc=(), unwindset=(), mem_gb=16, depth=None, libmodels=()):
         s.__dict__.update(locals()); del s.__dict__['s']
 
 def sh(cmd, timeout=None, env=None, cwd=None, mem_gb=None):
@@ -60,8 +60,10 @@ def build_c(q, bdir, log):
     return {'ll': ll, 'pll': pll, 'gen': gen, 'build_s': round(t + t2 + t3, 2), 'cut': irp['cut'], 'atomics': irp['atomics'],
             'translated': l2c['translated'], 'external': l2c['external']}
 
-def rt_files(q):
-    return [os.path.join(RT, 'vrt.c'), os.path.join(RT, 'vra.c')] + [os.path.join(RT, m) for m in q.models]
+def rt_files(q, real=False):
+    # libmodels = C models of library functions (libstdc++/libc): used by CBMC and by the gcc build of the generated C;
+    # the native build of the REAL code links the real library instead, so the differential validation also checks them
+    return [os.path.join(RT, 'vrt.c'), os.path.join(RT, 'vra.c')] + [os.path.join(RT, m) for m in q.models] + ([] if real else [os.path.join(RT, m) for m in q.libmodels])
 
 def vra_defs(q):
     if q.vra == 'sc': return ['-DVRA_SC']
@@ -79,7 +81,7 @@ def native_build(q, b, bdir, log):
     rc, out, _ = sh([CLANG, '-O1', '-w', '-c', b['pll'], '-o', obj], timeout=600)
     if rc: raise CheckError('clang failed on rewritten IR:\n' + out[-4000:])
     objs = []
-    for f in rt_files(q):
+    for f in rt_files(q, real=True):
         o = os.path.join(bdir, 'r_' + os.path.basename(f) + '.o')
         rc, out, _ = sh([CLANG, '-O1', '-w', '-c', f, '-o', o, '-DVLL_EMPTY_CTORS'] + cd, timeout=600)
         if rc: raise CheckError('clang failed on rt:\n' + out[-4000:])
@@ -108,7 +110,7 @@ def validate(q, b, bdir, seed, log):
 def cbmc_cmd(q, b, witness):
     cmd = ['cbmc', b['gen']] + rt_files(q) + ['-I', RT, '-DVLL_ENTRY=' + q.entry] + vra_defs(q) + ['-D' + d for d in q.cdefs]
     if witness: cmd += ['-DWITNESS', '--no-standard-checks']
-    cmd += ['--unwind', str(q.unwind), '--unwinding-assertions', '--drop-unused-functions', '--object-bits', '12', '--trace', '--verbosity', '8']
+    cmd += ['--unwind', str(q.unwind), '--unwinding-assertions', '--drop-unused-functions', '--no-malloc-may-fail', '--object-bits', '12', '--trace', '--verbosity', '8']
     for u in q.unwindset: cmd += ['--unwindset', u]
     if q.depth: cmd += ['--depth', str(q.depth)]
     if q.paths: cmd += ['--paths', 'lifo']
